@@ -11,6 +11,7 @@ mod help;
 mod oracle;
 mod part1;
 mod part2;
+mod part3;
 mod sandbox;
 
 use damage::Damage;
@@ -139,6 +140,7 @@ fn replay(check: &Check, tps: &[Template], p: &std::path::Path) {
             let case: LibCase = serde_json::from_value(c["case"].clone()).expect("lib case");
             part1::run_lib(check, &case)
         }
+        k if part3::PARTS.contains(&k) => part3::replay(check, k, &c["case"]),
         k => {
             eprintln!("unknown replay part {k}");
             std::process::exit(2)
@@ -289,6 +291,9 @@ fn main() {
     pt::run(&check, "create-random", check.tier.pick(32, 1500), opts(), part1::create_strategy, |c| json!({"part": "create", "case": c}), |c| part1::run_create(&check, c));
     pt::run(&check, "lib-random", check.tier.pick(32, 1500), opts(), part1::lib_strategy, |c| json!({"part": "lib", "case": c}), |c| part1::run_lib(&check, c));
     pt::run(&check, "status-random", check.tier.pick(160, 12000), opts(), || status_strategy(&tps), part2::case_json, |c| status_property(&check, &tps, c));
+
+    // ---- part 3: output-content differential
+    part3::run_all(&check, &tps);
 
     // ---- essential classes
     for t in &tps {
